@@ -110,6 +110,7 @@ contract(Q + 'Database.split', 'C13',
          },
          invariants={1: {'clauses': {
              'lens': 'len(estimation_sets) == _k and len(validation_sets) == _k',
+             'allocated': 'forall(lambda q: c13_allocated(estimation_sets[q]), 0, _k)',
              'val': 'forall(lambda q: same(validation_sets[q], the_slices[q]), 0, _k)',
              'est_n': 'forall(lambda q: c13_nparts(estimation_sets[q]) == len(the_slices) - 1, 0, _k)',
              'est': 'forall(lambda q: forall(lambda j: same(c13_part(estimation_sets[q], j), '
